@@ -12,6 +12,7 @@ import (
 	"berty.tech/go-ipfs-log/internal/vx"
 	"github.com/ipfs/go-cid"
 	"github.com/multiformats/go-multibase"
+	mh "github.com/multiformats/go-multihash"
 )
 
 // H_smoke_ident: identity creation and one signed entry through the real provider (engine bring-up).
@@ -253,3 +254,61 @@ func H_C07() {
 var _ = register("H_smoke_ident", H_smoke_ident)
 var _ = register("H_C07", H_C07)
 var _ iface.IPFSLogEntry
+
+// H_C07_legacy: entries of every format version whose predecessor or reference is a real identifier (not an
+// abstract one) in one of its forms - CIDv0, CIDv1/dag-pb, CIDv1/dag-cbor, CIDv1/raw of one digest: the form is
+// part of the identifier (the log's indexes tell the forms apart), so replacing a signed link by another form of
+// the same digest, or by an identifier of another digest, must make verification fail.
+func H_C07_legacy() {
+	ids, _ := realIdentities("userA")
+	api := newMemAPI()
+	io := &atomIO{api: api}
+	forms := linkForms()
+	ver := vx.Choice("ver", 3)
+	orig := vx.Choice("orig", 4)
+	inRefs := vx.Choice("inRefs", 2) == 1
+	y := &entry.Entry{LogID: "X", Payload: []byte("p"), V: uint64(ver), Clock: entry.NewLamportClock(ids[0].PublicKey, 3),
+		Key: ids[0].PublicKey, Identity: ids[0].Filtered(), Hash: vx.Cid(1), Next: []cid.Cid{}, Refs: []cid.Cid{}}
+	if inRefs {
+		y.Refs = []cid.Cid{forms[orig]}
+	} else {
+		y.Next = []cid.Cid{forms[orig]}
+	}
+	sig, err := ids[0].Provider.Sign(ctx, ids[0], refSigningBytes(y))
+	vx.Assert("C07", err == nil, "signing succeeds")
+	y.SetSig(sig)
+	vx.Assert("C07", y.Verify(ids[0].Provider, io) == nil, "an entry signed over the documented signing bytes verifies (real link identifiers)")
+	repl := vx.Choice("repl", len(forms))
+	vx.Assume(repl != orig)
+	x := y.Copy()
+	x.SetHash(y.GetHash())
+	if inRefs {
+		x.SetRefs([]cid.Cid{forms[repl]})
+	} else {
+		x.SetNext([]cid.Cid{forms[repl]})
+	}
+	if repl < 4 {
+		vx.Sig("tamper=link-form")
+	} else {
+		vx.Sig("tamper=link-digest")
+	}
+	vx.Cover("legacy-link-tampered")
+	vx.Assert("C07", x.Verify(ids[0].Provider, io) != nil, "a tampered entry does not verify")
+}
+
+// linkForms: four forms of one digest and one identifier of another digest.
+func linkForms() []cid.Cid {
+	digest := make([]byte, 32)
+	for i := range digest {
+		digest[i] = byte(i*7 + 1)
+	}
+	mh1, err := mh.Encode(digest, mh.SHA2_256)
+	if err != nil {
+		panic(err)
+	}
+	digest[31] ^= 0x55
+	mh2, _ := mh.Encode(digest, mh.SHA2_256)
+	return []cid.Cid{cid.NewCidV0(mh1), cid.NewCidV1(cid.DagProtobuf, mh1), cid.NewCidV1(cid.DagCBOR, mh1), cid.NewCidV1(cid.Raw, mh1), cid.NewCidV0(mh2)}
+}
+
+var _ = register("H_C07_legacy", H_C07_legacy)
